@@ -69,6 +69,8 @@ func vErrClass(err error) string {
 		return "extcycle"
 	case strings.Contains(msg, "unable to find extension"):
 		return "extmissing"
+	case strings.Contains(msg, "verif create failure"):
+		return "create"
 	}
 	return "other:" + hex.EncodeToString([]byte(msg))
 }
@@ -174,6 +176,26 @@ func TestVerifC10Lifecycle(t *testing.T) {
 		}
 
 		w := newVWorld()
+		// 3%: the factory of one exporter the configuration uses fails inside service.New (graph.Build): New must return the error
+		// and nothing may be started
+		if c >= ncorpus && rnd.IntN(33) == 0 {
+			p := cfg.pipes[rnd.IntN(len(cfg.pipes))]
+			var cand []string
+			for _, x := range p.exps {
+				isConn := false
+				for _, cc := range cfg.conns {
+					isConn = isConn || cc.id == x
+				}
+				if !isConn {
+					cand = append(cand, fmt.Sprintf("e%d:%d", x, p.sig))
+				}
+			}
+			if len(cand) > 0 {
+				k := cand[rnd.IntN(len(cand))]
+				w.failCreate[k] = true
+				out.Linef("op failcreate %s", k)
+			}
+		}
 		set, conf := vSettings(w, cfg)
 		srv, err := vNew(set, conf)
 		if err != nil {
